@@ -819,6 +819,27 @@ func genTable(cfg Config, emit0 func(string, bool, []string)) {
 				g.add("rev s%d m", g.nsnap-1)
 				g.add("get s%d m id %s", g.nsnap-1, hx([]byte{'e', byte('0' + k)}))
 			}
+			// every write operation, with every kind of guard, on a table the transaction does NOT hold
+			// (existing and missing objects): refused as such, nothing changes
+			g.add("wtxn a")
+			for _, id := range []string{"fa", "zz"} {
+				g.add("ins m %s 1 0 - - 0 %d", hx([]byte(id)), ord)
+				g.add("mod m %s 2 0 - - 0 %d", hx([]byte(id)), ord)
+				for _, spec := range []string{"cur", "cur-1", "cur+1", "0", "big"} {
+					g.add("cas m %s %s 3 0 - - 0 %d", spec, hx([]byte(id)), ord)
+					g.add("cad m %s %s", spec, hx([]byte(id)))
+				}
+				g.add("del m %s", hx([]byte(id)))
+				g.add("get w m id %s", hx([]byte(id)))
+			}
+			g.add("delall m")
+			g.add("num w m")
+			if r.IntN(2) == 0 {
+				g.add("abort")
+			} else {
+				g.add("commit")
+				g.nsnap++
+			}
 			// a LARGE transaction: more than 64 objects replaced (or removed) at once; every per-key and
 			// per-prefix channel handed out before must be closed by its commit
 			g.add("wtxn m")
@@ -1029,6 +1050,12 @@ func genTable(cfg Config, emit0 func(string, bool, []string)) {
 					if g.nsnap > 0 {
 						g.query(fmt.Sprintf("s%d", r.IntN(g.nsnap)))
 					}
+				case x < 93 && (tabs == "m" || tabs == "a") && r.IntN(2) == 0:
+					// a second write transaction (on the other table) attempts a write to the table THIS one
+					// holds: refused; what this transaction wrote so far is still there
+					g.add("sidebad %s %s", tabs, g.obj(tabs))
+					g.add("all w %s", tabs)
+					g.add("num w %s", tabs)
 				case x < 93:
 					// a second write transaction commits to a table this one does not hold; this
 					// transaction's view of that table (queries, change iterators) stays frozen
@@ -2093,6 +2120,45 @@ func (e *tableExec) do(o *Out, f []string) string {
 			o.Fail("C04", "wrong-result", map[string]string{"op": strings.Fields(k.desc)[0], "index": strings.Fields(k.desc)[3]}, fmt.Sprintf("%s (iterated later): got [%s] want [%s]", k.desc, showROs(got), showROs(k.want)))
 		}
 		return showROs(got)
+	case "sidebad":
+		// another write transaction, holding the OTHER table, attempts a write to a table the open
+		// transaction holds: it is refused and the holder is not disturbed
+		tn := f[1]
+		other := map[string]string{"m": "a", "a": "m"}[tn]
+		if e.wtxn == nil || e.wtables != tn || e.gcAt == "gc-scanned" {
+			return "bad-op"
+		}
+		obj := parseTObj(f[2:])
+		view := func() string {
+			// (point lookups only: an iterating read would clone the index transaction, which the model
+			// of the watch channels would have to know about)
+			var ids []string
+			for id := range e.txnRef.t(tn).objs {
+				ids = append(ids, id)
+			}
+			sort.Strings(ids)
+			var parts []string
+			for _, id := range ids {
+				if o, rev, ok := e.tbl(tn).Get(e.wtxn, tIDIndex.Query(id)); ok {
+					parts = append(parts, fmt.Sprintf("%s=%d@%d", hx([]byte(o.ID)), o.Val, rev))
+				} else {
+					parts = append(parts, hx([]byte(id))+"=missing")
+				}
+			}
+			return fmt.Sprintf("%d objects [%s] revision %d", e.tbl(tn).NumObjects(e.wtxn), strings.Join(parts, " "), e.tbl(tn).Revision(e.wtxn))
+		}
+		before := view()
+		x := e.db.WriteTxn(e.tbl(other))
+		_, _, err := e.tbl(tn).Insert(x, obj)
+		x.Abort()
+		if after := view(); after != before {
+			o.Fail("C05", "holder-disturbed-by-refused-write", nil, fmt.Sprintf("the transaction holding table %s saw %s before another transaction's refused write to that table and %s after it", tn, before, after))
+		}
+		if errName(err) != "notLocked" {
+			o.Fail("C05", "write-to-a-table-not-held-accepted", map[string]string{"op": "insert"}, fmt.Sprintf("Insert into table %s through a write transaction that holds only %s returned %s", tn, other, errName(err)))
+			o.Fail("C03", "wrong-error", map[string]string{"op": "insert"}, fmt.Sprintf("Insert into table %s not held by the transaction returned %s", tn, errName(err)))
+		}
+		return errName(err)
 	case "side":
 		// another write transaction, on a table the open one does not hold, inserts and commits
 		tn := f[1]
